@@ -104,6 +104,51 @@ def pick_target(rng, pv, texts, tries=12, min_len=2, max_len=18, states=("plain"
     return None
 
 
+def pick_cross_ins(rng, pv, texts):
+    """a target that starts in ordinary text and ends exactly at the end of a pending insertion (as a reviewer would
+    quote it from the accepted view); -> dict like pick_target or None"""
+    acc = pv.acc
+    ends = [i + 1 for i in range(len(acc)) if acc[i]["state"] == "ins" and
+            (i + 1 == len(acc) or acc[i + 1]["state"] != "ins" or acc[i + 1]["rid"] != acc[i]["rid"])]
+    rng.shuffle(ends)
+    for b in ends:
+        i0 = b - 1
+        while i0 > 0 and acc[i0 - 1]["state"] == "ins" and acc[i0 - 1]["rid"] == acc[b - 1]["rid"]:
+            i0 -= 1
+        if i0 == 0 or acc[i0 - 1]["state"] != "plain":
+            continue
+        a = i0 - 1
+        while a > 0 and acc[a - 1]["state"] == "plain" and acc[a - 1]["c"] not in " \n" and i0 - a < 10:
+            a -= 1
+        seg = acc[a:b]
+        if any(c["c"] == "\n" for c in seg) or len({tuple(c["comments"]) for c in seg}) > 1:
+            continue
+        target = "".join(c["c"] for c in seg)
+        if not target.strip() or target != target.strip():
+            continue
+        if count_occ(texts["clean"], target) != 1 or count_occ(texts["raw"], target) > 1:
+            continue
+        if count_occ(ws_norm(texts["clean"]), ws_norm(target)) != 1 or count_occ(fuzzy_norm(texts["clean"]), fuzzy_norm(target)) != 1:
+            continue
+        return {"si": pv.si, "pi": pv.pi, "a": a, "b": b, "target": target, "in_raw": count_occ(texts["raw"], target) == 1,
+                "over_del": False, "state": "cross_ins", "rid": acc[b - 1]["rid"], "at_para_start": a == 0,
+                "at_para_end": b == len(acc), "crosses_runs": True, "after_tab_in_run": False, "has_tab": False}
+    return None
+
+
+def gen_cross_ins_edit(rng, doc, texts):
+    """one edit that appends to / changes the tail of such a target (list with 0 or 1 edit)"""
+    pvs = [ParaView(si, pi, p) for pi, (si, p) in enumerate(sem.all_paragraphs(doc))]
+    rng.shuffle(pvs)
+    word = WordSource(rng)
+    for pv in pvs[:6]:
+        t = pick_cross_ins(rng, pv, texts)
+        if t:
+            new = t["target"] + rng.choice([", " + word(), ",", " " + word(), ";"])
+            return [{**t, "kind": "extend", "new": new, "comment": None, "locatable": True}]
+    return []
+
+
 NEW_WORDS = ["REPLACED", "amended text", "Forty-Two", "x", "new wording here", "Ünïcode", "a b c"]
 
 
@@ -135,7 +180,7 @@ def new_text_for(rng, target, kind, word):
     if kind == "markdown":
         return rng.choice(["**" + w + "** plain", "plain _" + w + "_", "**" + w + "** and _" + word() + "_", "_" + w + "_"])
     if kind == "heading":
-        return rng.choice(["# " + w, "## " + w + "\nbody " + word()])
+        return rng.choice(["# " + w, "## " + w + "\nbody " + word(), w + "\n## " + word(), w + "\n# " + word() + "\ntail " + word()])
     if kind == "literal":
         return rng.choice(["[___] fee", "snake_case_name", "2*3*4", "a_b", "__init__", "**", "f(x) = y_1"])
     raise ValueError(kind)
@@ -252,13 +297,13 @@ def pick_deleted(rng, pv, texts):
     return target
 
 
-def gen_mixed_batch(rng, doc, texts, n_edits, kinds=None, comment_p=0.3, conflicts=False, extras=True):
+def gen_mixed_batch(rng, doc, texts, n_edits, kinds=None, comment_p=0.3, conflicts=False, extras=True, states=("plain",)):
     """Found edits of every kind + (extras) not-found / empty-target edits + (conflicts) duplicate / overlapping /
     nested / inside-deleted-text edits, shuffled. Single-line kinds only when `conflicts` (the C08 oracle works on
     paragraph strings)."""
     kinds = kinds or (KINDS_C02 + ["same"] if conflicts else KINDS_ALL)
     word = WordSource(rng)
-    base = gen_batch(rng, doc, texts, n_edits, kinds, comment_p=comment_p)
+    base = gen_batch(rng, doc, texts, n_edits, kinds, comment_p=comment_p, states=states)
     for e in base:
         e["locatable"] = True
     edits = list(base)
